@@ -20,7 +20,9 @@ from props import c06 as H
 ID = 'C07'
 MODULE = 'PyTough.Props.C07'
 TARGETS = ['PyTough.Props.C07', 'drv_c05']
-THEOREMS = []
+THEOREMS = ['Props.C07.' + t for t in ['nav_view_eq_fresh', 'index_in_range', 'stale_cells_witness', 'next_bounds', 'prev_bounds',
+                                    'negative_index_normalised', 'index_out_of_range', 'set_time_nearest', 'set_step_nearest',
+                                    'history_preserves_view']]
 LEVEL_TEXT = ''
 LEVEL_NOTE = ''
 TECHNIQUE = L.TECHNIQUE
@@ -129,6 +131,7 @@ def job_c07(job, progress):
         raise
     n = lst.num_fulltimes
     res['n'] = n
+    res['path'] = str(path)
     times = [float(x) for x in lst.fulltimes]
     steps = [int(x) for x in lst.fullsteps]
     res['times'] = [L.bits(t) for t in times]
@@ -244,6 +247,118 @@ def collect(res, results, jobs):
             res.distinct.add(json.dumps([r['rel'], r['vspec'], [t[0] for t in tr]], sort_keys=True))
 
 
+def enc_op(op):
+    k = op[0]
+    if k in ('first', 'last', 'next', 'prev'): return 'nav ' + k
+    if k == 'index': return 'nav idx %d' % op[1]
+    if k == 'time': return 'nav time %d' % int(L.bits(op[1]), 16)
+    if k == 'step': return 'nav step %d' % op[1]
+    if k == 'history': return 'hist 1 ' + ' '.join(H.enc_item(it) for it in op[1])
+    raise RuntimeError(op)
+
+
+def model_nav(requests):
+    """requests: [(path, n, [trace])] on one driver; per request: list (per sequence) of list of (reply, same)"""
+    lines, plan = [], []
+    for path, n, traces in requests:
+        od = '1' if str(path).endswith('OUTPUT_DATA') else '0'
+        op_open = 'open %s %s -' % (L.hexs(str(path)), od)
+        lines.append(op_open); lines.append('info')
+        for j in range(n):                   # fresh readers positioned at each index
+            lines += [op_open, 'index %d' % j, 'snap %d' % j]
+        for tr in traces:
+            lines.append(op_open)
+            lines.append('TIMES')            # placeholder, filled below when the model's own times are known
+            for (op, idx, ret) in tr:
+                lines.append(enc_op(op))
+                lines.append('same %d' % idx)
+    # two passes: the doubles of the result times come from the model's own `info` reply (decimal -> double by CPython)
+    infos = core.run_driver('drv_c05', sum([['open %s %s -' % (L.hexs(str(p)), '1' if str(p).endswith('OUTPUT_DATA') else '0'), 'info'] for p, n, t in requests], []))
+    times_of = {}
+    for k, (p, n, t) in enumerate(requests):
+        info = infos[2 * k + 1]
+        m = [x for x in info.split(' ') if x.startswith('fulltimes=')]
+        vals = m[0][len('fulltimes='):].split(',') if m and infos[2 * k].startswith('ok') else []
+        times_of[str(p)] = ','.join(str(int(L.bits(float(v)), 16)) for v in vals if v)
+    out_lines = []
+    cur = None
+    for l in lines:
+        if l.startswith('open '):
+            cur = bytes.fromhex(l.split(' ')[1]).decode('latin-1')
+        out_lines.append('times %s' % times_of.get(cur, '') if l == 'TIMES' else l)
+    out = core.run_driver('drv_c05', out_lines)
+    k = 0
+    res = []
+    for path, n, traces in requests:
+        opened = out[k].startswith('ok')
+        k += 2 + 3 * n
+        seqs = []
+        for tr in traces:
+            k += 2
+            steps = []
+            for (op, idx, ret) in tr:
+                steps.append((out[k], out[k + 1]))
+                k += 2
+            seqs.append(steps)
+        res.append(seqs if opened else None)
+    return res
+
+
+def correspond(ctx, res, jobs, results):
+    """facet listing_nav: the same action sequences on the whole-file model: index reached, value returned by next/prev,
+    IndexError, and whether the model's view equals the model's own fresh view at that index"""
+    from concurrent.futures import ThreadPoolExecutor
+    f = res.facet('listing_nav')
+    reqs, owners = [], []
+    for job, r in zip(jobs, results):
+        if isinstance(r, L.Timeout) or not r.get('traces') or 'path' not in r:
+            continue
+        reqs.append((r['path'], r['n'], r['traces']))
+        owners.append((job, r))
+    if not reqs:
+        return
+    order = sorted(range(len(reqs)), key=lambda i: -sum(len(t) for t in reqs[i][2]) * (1 + len(open(reqs[i][0], 'rb').read()) // 100000))
+    nth = min(8, len(reqs))
+    buckets = [[] for _ in range(nth)]
+    for k, i in enumerate(order):
+        buckets[k % nth].append(i)
+    outs = [None] * len(reqs)
+    with ThreadPoolExecutor(max_workers=nth) as ex:
+        futs = [ex.submit(model_nav, [reqs[i] for i in b]) for b in buckets]
+        for b, fut in zip(buckets, futs):
+            for i, o in zip(b, fut.result()):
+                outs[i] = o
+    for (job, r), (path, n, traces), o in zip(owners, reqs, outs):
+        case0 = dict(file=job['rel'], variant=job['vspec'])
+        if o is None:
+            f['cases'] += 1; f['disagreements'] += 1
+            res.disagreements.append(dict(facet='listing_nav', case=case0, model='open fails', impl='opens'))
+            continue
+        for tr, steps in zip(traces, o):
+            done = []
+            for (op, idx, ret), (rep, same) in zip(tr, steps):
+                done.append(op)
+                f['cases'] += 1
+                w = rep.split(' ')
+                d = None
+                if ret == 'IndexError':
+                    if not (w[0] == 'exc' and w[1] == 'IndexError'): d = (rep[:60], 'IndexError')
+                elif op[0] == 'history':
+                    if w[0] != 'ok': d = (rep[:60], 'history returns')
+                elif w[0] != 'ok':
+                    d = (rep[:60], 'index %d' % idx)
+                else:
+                    moved, midx = w[1] == '1', int(w[2])
+                    if midx != idx: d = ('index %d' % midx, 'index %d' % idx)
+                    elif op[0] in ('next', 'prev') and moved != bool(ret): d = ('returns %r' % moved, 'returns %r' % ret)
+                if d is None and same != 'ok 1':
+                    d = ('view differs from the model\'s fresh view at index %d (%s)' % (idx, same), 'equal to a fresh reader')
+                if d:
+                    f['disagreements'] += 1
+                    res.disagreements.append(dict(facet='listing_nav', case=dict(case0, ops=list(done)), model=d[0], impl=d[1]))
+                    break
+
+
 def run(ctx):
     res = Result()
     res.rule = ('cases = action sequences on a freshly opened reader of a shipped listing, a truncated copy (1..N-1 result times) or a '
@@ -255,6 +370,8 @@ def run(ctx):
     results = L.run_jobs('job_c07', jobs, timeout=NAV_TIMEOUT, module='props.c07')
     collect(res, results, jobs)
     res.facet('oracle_navigation')['cases'] = res.stats.get('actions', 0)
+    if ctx.model_ok:
+        correspond(ctx, res, jobs, results)
     return res
 
 
